@@ -5,7 +5,7 @@ import random
 
 from . import randscenes
 
-INDEX_MODES = ['perceilo', 'const', 'shuffled', 'offset', 'str', 'float']
+INDEX_MODES = ['perceilo', 'const', 'shuffled', 'offset', 'str', 'float', 'named', 'dtindex', 'multi']
 LAYOUTS = [
     {'colperm': [3, 1, 0, 2]},
     {'extra': True},
@@ -18,6 +18,7 @@ LAYOUTS = [
     {'dtypes': {'type': 'int8'}},
     {'dtypes': {'type': 'int32', 'ceilo': 'object'}, 'extra': True},
     {'extra': 'mixed'},
+    {'extra': 'dup'},
     {'dtypes': {'height': 'float32'}},
     {'dtypes': {'dt': 'str', 'height': 'str', 'type': 'str', 'ceilo': 'str'}},          # e.g. a frame built from a 2-D array of strings
     {'dtypes': {'height': 'object', 'dt': 'object'}},
@@ -93,6 +94,16 @@ def c07_pairs(seed, n, sizes=('tiny', 'mid')):
         base = with_msa_edges(base, rng)
         base['prms']['MAX_HITS_OKTA0'] = rng.choice([0, 1, 2, 3])
         kind = 'c07new' if i % 2 == 0 else 'c07blank'
+        if kind == 'c07new' and rng.random() < 0.35:
+            # the hits of a measurement need not be ranked by height: the first hit becomes the highest one
+            meas = {}
+            for r in base['rows']:
+                if r[2] is not None and r[3] >= 1:
+                    meas.setdefault((r[0], r[1]), []).append(r)
+            for rs in meas.values():
+                if len(rs) >= 2:
+                    for r, k in zip(sorted(rs, key=lambda x: -x[2]), sorted(x[3] for x in rs)):
+                        r[3] = k
         p = c07_pair(base, kind, rng, f'{kind}:{seed}:{i}')
         i += 1
         if p is not None:
